@@ -118,8 +118,9 @@ with_relatives, render_raw, strip_raw = V.with_relatives, V.render_raw, V.strip_
 
 class C03:
     prop = "C03"
-    lean_module = "Ogorek.Props.C03N"
-    theorems = ["Ogorek.C03_roundtrip", "Ogorek.C03_roundtrip_bin", "Ogorek.C03_normal_form", "Ogorek.rt_val", "Ogorek.rtn_val", "Ogorek.C03_int", "Ogorek.parseDecimal_fmtInt",
+    lean_module = "Ogorek.Props.C03R"
+    theorems = ["Ogorek.C03_roundtrip", "Ogorek.C03_roundtrip_bin", "Ogorek.C03_normal_form", "Ogorek.C03_normal_form_reflect", "Ogorek.encR_lower",
+                "Ogorek.rt_val", "Ogorek.rtn_val", "Ogorek.C03_int", "Ogorek.parseDecimal_fmtInt",
                 "Ogorek.toSigned_ofSigned_32", "Ogorek.goEqual_strip", "Ogorek.assignAll_of_keysOK", "Ogorek.C03_string_p0",
                 "Ogorek.C03_unicode_p0", "Ogorek.pyquote_inv", "Ogorek.pyquote_no_lf", "Ogorek.rue_inv", "Ogorek.rue_no_lf",
                 "Ogorek.encodeRune_of_exact", "Ogorek.decodeRune_exact", "Ogorek.C03_isprint_lf"]
@@ -141,9 +142,11 @@ class C03:
                   "shortest-round-trip property, NOT proved (C03_roundtrip_bin: no such hypothesis from protocol 1 on). Non-canonical "
                   "values are covered by C03_normal_form (rtn_val, the same induction): unsigned integers and pointers to application structs, "
                   "at any depth and as map / Dict keys, come back as their documented normal form `norm v` (uint64 -> int64 of the same value, or "
-                  "*big.Int above 2^63-1; struct -> map / Dict of its fields; `norm` is the identity on canonical values). PARTIAL: that "
-                  "float-text hypothesis, *big.Int keys of builtin maps, and the normal forms of the remaining non-canonical inputs (narrow "
-                  "int / float32 widths, typed slices and maps - values the reflect layer widens before the model sees them) are tied by correspondence: decode(encode(v)) is computed "
+                  "*big.Int above 2^63-1; struct -> map / Dict of its fields; `norm` is the identity on canonical values), and by "
+                  "C03_normal_form_reflect for the reflect universe: typed slices / arrays, maps of any key type, pointer chains, nil pointers "
+                  "and interfaces, structs with tagged / untagged / unexported fields are written exactly like the plain value `lower rv` "
+                  "(encR_lower), so they round-trip to its normal form. PARTIAL: that float-text hypothesis, *big.Int keys of builtin maps, "
+                  "and the widening of narrow int / float32 values (done by the harness when it describes a value) are tied by correspondence: decode(encode(v)) is computed "
                   "by the implementation and by the model for every generated value x protocol x mode and compared with each other and "
                   "with the documented normal form; the argument is re-rendered after Encode to detect mutation.")
     level_note = ("trusted: Lean kernel + standard axioms; encoder and decoder models (exact agreement required on every explored case); float "
@@ -400,8 +403,8 @@ ARGMAP = {"none": None}
 
 class C12:
     prop = "C12"
-    lean_module = "Ogorek.Props.C12"
-    theorems = ["Ogorek.C12_conforms", "Ogorek.C12_conforms_bin", "Ogorek.scans_val", "Ogorek.scanLoop_run", "Ogorek.fmtG_no_lf", "Ogorek.C12_reject", "Ogorek.C12_facts"]
+    lean_module = "Ogorek.Props.C03R"
+    theorems = ["Ogorek.C12_conforms", "Ogorek.C12_conforms_bin", "Ogorek.C12_conforms_reflect", "Ogorek.scans_val", "Ogorek.scanLoop_run", "Ogorek.fmtG_no_lf", "Ogorek.C12_reject", "Ogorek.C12_facts"]
     trusted_base = TB_COMMON + ["the opcode table of Ogorek/Opcodes.lean (transcribed from pickletools; diffed against pickletools.opcodes of CPython 3.11 on every run)"]
     level_text = ("Lean theorem C12_conforms: for EVERY value (any nesting; application structs, unsigned ints, maps and Dicts included) "
                   "with payloads < 2^32 bytes and EVERY protocol p in 0..5, if Encode returns no error its output passes the independent "
@@ -639,8 +642,28 @@ class C13:
                 if f[1] != "0":
                     ctx.violate("injected error reported although no Write failed", line[:3000], "no injected error", g)
         self.run_reflect(ctx)
+        self.run_reuse(ctx, base_lines, base_go)
         for i in range(0, len(lines), max(1, len(lines) // 8)):
             ctx.sample(lines[i][:300] + " -> " + go[i][:100])
+
+    def run_reuse(self, ctx, base_lines, base_go):
+        """One Encoder used again after a call in which a Write failed: with a Writer that works, the second call must write
+        exactly the pickle (nothing left over from the failed call)."""
+        rng = ctx.rng
+        lines = []
+        for (p, su, rh, v, bl), bg in zip(base_lines, base_go):
+            if rh != "-" or not bg.startswith("OK ") or V.max_entries(v) > 1:     # several map entries: the write order is arbitrary
+                continue
+            n = len(bg[3:].split(","))
+            for k in sorted(set([1, 2, n] + [rng.randint(1, n) for _ in range(3)])):
+                lines.append(f"encre {p} {su} {k} {V.render(v, sort=False)}")
+        lines = lines[: ctx.scale(4000, 60000)]
+        for line, g in zip(lines, C.run_sharded(C.run_go, lines)):
+            ctx.evaluations += 1
+            ctx.count("reuse:" + g.split(" ")[0])
+            if g != "SAME":
+                ctx.violate("an Encoder used again after a failed Write does not write the pickle (no Write failed in this call)",
+                            line[:3000], "SAME (the bytes a fresh Encoder writes)", g[:600])
 
     def run_reflect(self, ctx):
         """The same fault injection over reflect-generated Go types (structs with several tagged fields, embedded
